@@ -735,12 +735,14 @@ class VarsManager(object):
         p = self.variables[name + "i"]
         if r < 0:
             r.assign(tf.abs(r))
-            if type(self.complex_vars[name]) == list:
-                for name_r in self.complex_vars[name]:
-                    self.variables[name_r[:-1] + "i"].assign_add(np.pi)
-            else:
-                p.assign_add(np.pi)
-        self._std_polar_angle(p)
+            # every parameter sharing this radius (set_share_r) changes sign with it
+            phases = {}
+            for i in self.complex_vars:
+                if self.variables.get(i + "r") is r and i + "i" in self.variables:
+                    phases[id(self.variables[i + "i"])] = self.variables[i + "i"]
+            for pi in phases.values():
+                pi.assign_add(np.pi)
+        p.assign(self._std_polar_angle(p))
 
     def std_polar_all(self):  # std polar expression: r>0, -pi<p<pi
         """
